@@ -62,14 +62,21 @@ def dense (x : Nat) (p : MPoly) : List Int :=
 inductive Op | add | mul | pow (n : Nat)
 deriving Repr, DecidableEq
 
-/-- eliminant of `x ⊕ y` in the variable z = 0, eliminating y = 1 -/
-def eliminant (op : Op) (f g : List Int) : List Int :=
-  let z := 0
-  let y := 1
+/-- the pair (P(z, y), Q(y)) whose common zeros project onto x ⊕ y: z = 0, y = 1 -/
+def elimPair (op : Op) (f g : List Int) : MPoly × MPoly :=
   match op with
-  | .add => dense z (resultantSpec none y (hornerAt f (MPoly.sub none (varP z) (varP y))) (uni y g))
-  | .mul => dense z (resultantSpec none y (homog f z y) (uni y g))
-  | .pow n => dense z (resultantSpec none y (MPoly.sub none (varP z) (MPoly.pow none (varP y) n)) (uni y f))
+  | .add => (hornerAt f (MPoly.sub none (varP 0) (varP 1)), uni 1 g)
+  | .mul => (homog f 0 1, uni 1 g)
+  | .pow n => (MPoly.sub none (varP 0) (MPoly.pow none (varP 1) n), uni 1 f)
+
+/-- eliminate y = 1 from the pair, giving a polynomial in z = 0; `[]` if y does not occur (no elimination possible) -/
+def elimOf (P Q : MPoly) : List Int :=
+  if MPoly.degreeIn 1 P + MPoly.degreeIn 1 Q = 0 then []
+  else dense 0 (resultantSpec none 1 P Q)
+
+/-- eliminant of `x ⊕ y` in the variable z = 0 -/
+def eliminant (op : Op) (f g : List Int) : List Int :=
+  elimOf (elimPair op f g).1 (elimPair op f g).2
 
 def ciOf (a : Alg) : CI := ⟨a.lo, a.hi⟩
 def ciPow (X : CI) : Nat → CI
